@@ -78,6 +78,12 @@ SINGLE_PASS_ROOTS = {
     "C07": [f"{AI}.id_star.id_star"],
     "C08": [f"{AI}.idc_star.idc_star"],
     "C09": [f"{CT}.transport_unconditional_counterfactual_query", f"{CT}.transport_conditional_counterfactual_query", f"{CT}.unconditional_cft", f"{CT}.conditional_cft"],
+    "C06": [f"{AI}.id_std.identify", f"{AI}.id_c.idc", f"{TR}.trso", f"{TR}.identify_target_outcomes", f"{AI}.id_star.id_star", f"{AI}.idc_star.idc_star"],
+    "C10": ["y0.mutate.canonicalize_expr.canonicalize", "y0.mutate.canonicalize_expr.canonical_expr_equal"],
+    "C11": ["y0.mutate.canonicalize_expr.canonicalize"],
+    "C12": ["y0.parser.internal.parse_y0", "y0.dsl.Probability.to_y0", "y0.dsl.Sum.to_y0", "y0.dsl.Product.to_y0", "y0.dsl.Fraction.to_y0", "y0.dsl.QFactor.to_y0"],
+    "C13": ["y0.mutate.chain.chain_expand", "y0.mutate.chain.fraction_expand", "y0.mutate.chain.bayes_expand", "y0.mutate.contract.contract",
+            "y0.dsl.Sum.simplify", "y0.dsl.Sum.safe", "y0.dsl.Product.safe", "y0.dsl.Fraction.simplify", "y0.dsl.Expression.conditional", "y0.dsl.Expression.marginalize"],
     "C14": [f"{G}.subgraph", f"{G}.remove_in_edges", f"{G}.remove_out_edges", f"{G}.remove_nodes_from", f"{G}.intervene", f"{G}.ancestors_inclusive",
             f"{G}.descendants_inclusive", f"{G}.districts", f"{G}.get_markov_pillow", f"{G}.get_markov_blanket", f"{G}.moralize", f"{G}.disorient", f"{G}.pre",
             f"{G}.topological_sort", "y0.graph.get_nodes_in_directed_paths"],
@@ -144,12 +150,12 @@ def single_pass(pid: str, model, rep: Report) -> None:
     rep.floors[rule] = len(quals)
 
 
-def thorough(pid: str, model, rep: Report, args) -> None:
-    from yv.report import PROVEN, REFUTED, UNKNOWN
-    from yv.selftest import self_validate
+def inherit_dependencies(pid: str, model, rep: Report) -> None:
+    """The rules of the properties this one's claim rests on (its trusted base among the other properties), re-run on the same parse: a change
+    in the graph class or in the expression DSL that breaks THEIR definitions breaks this property's claim as well.  Both tiers."""
+    from yv.report import PROVEN, REFUTED, UNKNOWN  # noqa: F401
 
     own = {o.key for o in rep.obligations}
-    # 1. rules of the properties this one's claim rests on
     n_dep = 0
     for dep in DEPS.get(pid, []):
         sub = Report(pid, "thorough")
@@ -159,13 +165,20 @@ def thorough(pid: str, model, rep: Report, args) -> None:
                 continue
             own.add(ob.key)
             ob.inherited = dep
-            ob.required = False
+            # an obligation the dependency's own check needs decided is needed here too: a graph routine the analysis can no longer read
+            # leaves this property's claim without its base (ob.required is kept as the dependency's rule set it)
             rep.obligations.append(ob)
             n_dep += 1
         for e in sub.errors:
             rep.error(f"[{dep}] {e}")
     rep.stats["inherited_obligations"] = n_dep
     rep.stats["inherited_from"] = DEPS.get(pid, [])
+
+
+def thorough(pid: str, model, rep: Report, args) -> None:
+    from yv.report import PROVEN, REFUTED, UNKNOWN
+    from yv.selftest import self_validate
+
     # 2. self-validation of this property's own rules on scratch variants of the current tree
     base = {o.key for o in rep.obligations if o.verdict == REFUTED and not getattr(o, "inherited", None)}
     src = os.path.join(args.repo, "src") if args.repo else "/repo/src"
@@ -237,6 +250,7 @@ def main() -> int:
         mod.run(model, rep, args.tier)
         entry_points_stateless(pid, model, rep)
         single_pass(pid, model, rep)
+        inherit_dependencies(pid, model, rep)
         if args.tier == "thorough":
             thorough(pid, model, rep, args)
     except AnalysisError as e:
